@@ -1,0 +1,29 @@
+//go:build verif
+
+package transport
+
+import (
+	"github.com/lni/dragonboat/v4/internal/vfs"
+	pb "github.com/lni/dragonboat/v4/raftpb"
+)
+
+// VerifC08FileChunks is what a snapshot job sends for an InstallSnapshot message
+// that carries a recorded snapshot file: splitSnapshotMessage, then each chunk
+// with its data loaded from the sender's file system (job.sendSnapshot).
+func VerifC08FileChunks(m pb.Message, did uint64, fs vfs.IFS) ([]pb.Chunk, error) {
+	chunks, err := splitSnapshotMessage(m, fs)
+	if err != nil {
+		return nil, err
+	}
+	for i := range chunks {
+		chunks[i].DeploymentId = did
+		if !chunks[i].Witness {
+			data, err := loadChunkData(chunks[i], nil, fs)
+			if err != nil {
+				return nil, err
+			}
+			chunks[i].Data = data
+		}
+	}
+	return chunks, nil
+}
